@@ -1,8 +1,8 @@
 (* Props/C13.v — property C13: positions sent and received refer to the right place in the
    editor's text.  Only statements, each closed by an `exact`, pinned by a `Check`, and
    followed by `Print Assumptions`.  Model: Pos.v (+ Library.v for the line map); proofs:
-   PosFacts.v, PosLib.v.  `as_found` is the pinned tree; `v_crlf` / `v_utf16` are the two
-   repairs delivered as fix-c13-crlf.patch / fix-c13-utf16.patch. *)
+   PosFacts.v, PosLib.v.  `as_found` is the tree before the repairs of this property, `repaired`
+   the current tree; each flag of `variant` is one `fix:` commit of /repo (see Pos.v). *)
 From IweV Require Import Str Text Ast Arena Pos PosFacts Library PosLib.
 Local Open Scope string_scope.
 Local Open Scope list_scope.
@@ -87,108 +87,203 @@ Check C13_position_utf16 :
     to_position v t (line_starts v t) x = lsp_pos t x.
 Print Assumptions C13_position_utf16.
 
-(* what link_at returns, for blocks and inlines nested to any depth: the first link (outermost first, left to right) containing the position, among the inlines of the first block (children before parents, document order) whose line range covers the line *)
+(* what link_at returns, for blocks and inlines nested to any depth: the first link (outermost first, left to right) containing the position, among the inlines of the first block (children before parents, document order; for a table since the repair v_table: the inlines of its cells) whose line range covers the line.  Since the repair v_empty_item for EVERY document; as found for documents without a list whose first item is empty *)
 Theorem C13_link_at_char :
-  forall (bs : list pblock) (p : pos),
-    no_bad_lists bs ->
-    link_at bs p =
-    Ok (match find (covers (fst p)) (doc_search_order bs) with
-        | Some b => find (in_span p) (links_of_list (child_inlines b))
+  forall (v : variant) (bs : list pblock) (p : pos),
+    (v_empty_item v = true \/ no_bad_lists bs) ->
+    link_at v bs p =
+    Ok (match find (covers v (fst p)) (doc_search_order bs) with
+        | Some b => find (in_span p) (links_of_list (child_inlines v b))
         | None => None
         end).
 Proof. exact link_at_char. Qed.
 
 Check C13_link_at_char :
-  forall (bs : list pblock) (p : pos),
-    no_bad_lists bs ->
-    link_at bs p =
-    Ok (match find (covers (fst p)) (doc_search_order bs) with
-        | Some b => find (in_span p) (links_of_list (child_inlines b))
+  forall (v : variant) (bs : list pblock) (p : pos),
+    (v_empty_item v = true \/ no_bad_lists bs) ->
+    link_at v bs p =
+    Ok (match find (covers v (fst p)) (doc_search_order bs) with
+        | Some b => find (in_span p) (links_of_list (child_inlines v b))
         | None => None
         end).
 Print Assumptions C13_link_at_char.
 
+(* link_at of the current tree returns normally on every document at every position (as found it panicked on a list whose first item is empty: C13_empty_item_refuted) *)
+Theorem C13_link_at_total :
+  forall (v : variant) (bs : list pblock) (p : pos),
+    v_empty_item v = true -> exists r, link_at v bs p = Ok r.
+Proof. exact link_at_total. Qed.
+
+Check C13_link_at_total :
+  forall (v : variant) (bs : list pblock) (p : pos),
+    v_empty_item v = true -> exists r, link_at v bs p = Ok r.
+Print Assumptions C13_link_at_total.
+
 (* with exact block ranges and non-overlapping links, link_at returns l exactly when the position is inside l's range *)
 Theorem C13_link_at :
-  forall (bs : list pblock) (p : pos) (l : pinl),
-    no_bad_lists bs -> block_ranges_exact bs -> links_disjoint bs ->
-    (link_at bs p = Ok (Some l) <->
-     exists b, In b (doc_search_order bs) /\ In l (links_of_list (child_inlines b)) /\ in_span p l = true).
+  forall (v : variant) (bs : list pblock) (p : pos) (l : pinl),
+    (v_empty_item v = true \/ no_bad_lists bs) -> block_ranges_exact v bs -> links_disjoint v bs ->
+    (link_at v bs p = Ok (Some l) <->
+     exists b, In b (doc_search_order bs) /\ In l (links_of_list (child_inlines v b)) /\ in_span p l = true).
 Proof. exact C13_link_at_iff. Qed.
 
 Check C13_link_at :
-  forall (bs : list pblock) (p : pos) (l : pinl),
-    no_bad_lists bs -> block_ranges_exact bs -> links_disjoint bs ->
-    (link_at bs p = Ok (Some l) <->
-     exists b, In b (doc_search_order bs) /\ In l (links_of_list (child_inlines b)) /\ in_span p l = true).
+  forall (v : variant) (bs : list pblock) (p : pos) (l : pinl),
+    (v_empty_item v = true \/ no_bad_lists bs) -> block_ranges_exact v bs -> links_disjoint v bs ->
+    (link_at v bs p = Ok (Some l) <->
+     exists b, In b (doc_search_order bs) /\ In l (links_of_list (child_inlines v b)) /\ in_span p l = true).
 Print Assumptions C13_link_at.
 
 (* and nothing at a position that no link's range contains *)
 Theorem C13_link_at_nothing :
-  forall (bs : list pblock) (p : pos),
-    no_bad_lists bs ->
-    (forall b l, In b (doc_search_order bs) -> In l (links_of_list (child_inlines b)) -> in_span p l = false) ->
-    link_at bs p = Ok None.
+  forall (v : variant) (bs : list pblock) (p : pos),
+    (v_empty_item v = true \/ no_bad_lists bs) ->
+    (forall b l, In b (doc_search_order bs) -> In l (links_of_list (child_inlines v b)) -> in_span p l = false) ->
+    link_at v bs p = Ok None.
 Proof. exact C13_link_at_none. Qed.
 
 Check C13_link_at_nothing :
-  forall (bs : list pblock) (p : pos),
-    no_bad_lists bs ->
-    (forall b l, In b (doc_search_order bs) -> In l (links_of_list (child_inlines b)) -> in_span p l = false) ->
-    link_at bs p = Ok None.
+  forall (v : variant) (bs : list pblock) (p : pos),
+    (v_empty_item v = true \/ no_bad_lists bs) ->
+    (forall b l, In b (doc_search_order bs) -> In l (links_of_list (child_inlines v b)) -> in_span p l = false) ->
+    link_at v bs p = Ok None.
 Print Assumptions C13_link_at_nothing.
 
-(* F3: a list whose first item is empty makes link_at panic *)
+(* F3, repaired (9f6ec66): as found a list whose first item is empty made link_at panic; the repaired link_at finds the link of the second item *)
 Theorem C13_empty_item_refuted :
-  exists p : pos, link_at bad_list_witness p = Panic "line_range: unwrap on None" /\ p = (1, 3).
+  exists p : pos, link_at as_found bad_list_witness p = Panic "line_range: unwrap on None" /\ p = (1, 3) /\
+                  link_at repaired bad_list_witness p = Ok (Some (PNode (KLink Regular "x") ((1, 2), (1, 8)) [PStr 1])).
 Proof. exact C13_bad_list_refuted. Qed.
 
 Check C13_empty_item_refuted :
-  exists p : pos, link_at bad_list_witness p = Panic "line_range: unwrap on None" /\ p = (1, 3).
+  exists p : pos, link_at as_found bad_list_witness p = Panic "line_range: unwrap on None" /\ p = (1, 3) /\
+                  link_at repaired bad_list_witness p = Ok (Some (PNode (KLink Regular "x") ((1, 2), (1, 8)) [PStr 1])).
 Print Assumptions C13_empty_item_refuted.
 
-(* block_ranges_exact fails for a multi-line paragraph at the end of a text without final newline: to_line_range drops its last line even with a correct line table, the link there is not found *)
+(* OPEN (F-C13-last-line): block_ranges_exact fails, in the current tree too, for a range that ends inside a line: to_line_range drops its last line even with a correct line table (witness `x [l\nm](to)`: the link runs over the line break and ends the text, the position on its second line is not found) *)
 Theorem C13_last_line_refuted :
-  exists d, read_events (code_mode as_found w_last_line_text) w_last_line_events = Ok d /\
-            link_at d (1, 7) = Ok None /\
-            irange_contains (spec_span w_last_line_text 18 25) (1, 7) = true /\
-            to_line_range (line_starts_fixed w_last_line_text) 0 27 = (0, 1) /\
-            spec_lines w_last_line_text 0 27 = (0, 2).
+  exists d, read_events (code_mode repaired w_last_line_text) w_last_line_events = Ok d /\
+            read_events (code_mode as_found w_last_line_text) w_last_line_events = Ok d /\
+            link_at repaired d (1, 2) = Ok None /\
+            irange_contains (spec_span w_last_line_text 2 11) (1, 2) = true /\
+            to_line_range (line_starts_fixed w_last_line_text) 0 11 = (0, 1) /\
+            spec_lines w_last_line_text 0 11 = (0, 2).
 Proof. exact PosFacts.C13_last_line_refuted. Qed.
 
 Check C13_last_line_refuted :
-  exists d, read_events (code_mode as_found w_last_line_text) w_last_line_events = Ok d /\
-            link_at d (1, 7) = Ok None /\
-            irange_contains (spec_span w_last_line_text 18 25) (1, 7) = true /\
-            to_line_range (line_starts_fixed w_last_line_text) 0 27 = (0, 1) /\
-            spec_lines w_last_line_text 0 27 = (0, 2).
+  exists d, read_events (code_mode repaired w_last_line_text) w_last_line_events = Ok d /\
+            read_events (code_mode as_found w_last_line_text) w_last_line_events = Ok d /\
+            link_at repaired d (1, 2) = Ok None /\
+            irange_contains (spec_span w_last_line_text 2 11) (1, 2) = true /\
+            to_line_range (line_starts_fixed w_last_line_text) 0 11 = (0, 1) /\
+            spec_lines w_last_line_text 0 11 = (0, 2).
 Print Assumptions C13_last_line_refuted.
 
-(* … for the continuation line of a tight list item (the implicit paragraph gets the range of its first inline) *)
+(* repaired (ce73eb4): as found the implicit paragraph of a tight list item got the range of its first inline, the link on the continuation line was not found *)
 Theorem C13_tight_item_refuted :
   exists d, read_events (code_mode as_found w_tight_text) w_tight_events = Ok d /\
-            link_at d (1, 9) = Ok None /\
+            link_at as_found d (1, 9) = Ok None /\
             irange_contains (spec_span w_tight_text 16 23) (1, 9) = true.
 Proof. exact PosFacts.C13_tight_item_refuted. Qed.
 
 Check C13_tight_item_refuted :
   exists d, read_events (code_mode as_found w_tight_text) w_tight_events = Ok d /\
-            link_at d (1, 9) = Ok None /\
+            link_at as_found d (1, 9) = Ok None /\
             irange_contains (spec_span w_tight_text 16 23) (1, 9) = true.
 Print Assumptions C13_tight_item_refuted.
 
-(* … and for links in table cells (tables have no child inlines) *)
+(* ... the repaired reader builds the specification's document for that text and the link is found *)
+Theorem C13_tight_item_repaired :
+  exists d l, read_events (code_mode repaired w_tight_text) w_tight_events = Ok d /\
+              read_events (spec_mode w_tight_text) w_tight_events = Ok d /\
+              link_at repaired d (1, 9) = Ok (Some l) /\ inline_range l = spec_span w_tight_text 16 23.
+Proof. exact PosFacts.C13_tight_item_repaired. Qed.
+
+Check C13_tight_item_repaired :
+  exists d l, read_events (code_mode repaired w_tight_text) w_tight_events = Ok d /\
+              read_events (spec_mode w_tight_text) w_tight_events = Ok d /\
+              link_at repaired d (1, 9) = Ok (Some l) /\ inline_range l = spec_span w_tight_text 16 23.
+Print Assumptions C13_tight_item_repaired.
+
+(* since the repair v_tight the reader builds exactly the specification's document (every block with the lines its source spans, every inline with its LSP span) on EVERY event stream whose events each get exact lines and an exact span: no block range is derived from the wrong inline any more *)
+Theorem C13_reader_spec :
+  forall (v : variant) (t : string) (evs : list ev),
+    v_tight v = true -> Forall (modes_agree (code_mode v t) (spec_mode t)) evs ->
+    read_events (code_mode v t) evs = read_events (spec_mode t) evs.
+Proof. exact PosFacts.C13_reader_spec. Qed.
+
+Check C13_reader_spec :
+  forall (v : variant) (t : string) (evs : list ev),
+    v_tight v = true -> Forall (modes_agree (code_mode v t) (spec_mode t)) evs ->
+    read_events (code_mode v t) evs = read_events (spec_mode t) evs.
+Print Assumptions C13_reader_spec.
+
+(* to_line_range gives a byte range exactly the lines it spans when the range ends behind a line feed or lies on one line (the complement is the open finding F-C13-last-line) *)
+Theorem C13_line_range_exact :
+  forall (v : variant) (t : string) (s e : nat),
+    (v_crlf v = true \/ no_cr t = true) -> s <= e -> e <= String.length t ->
+    (nth_byte t (e - 1) = Some LF \/ fst (lsp_pos_walk t s) = fst (lsp_pos_walk t e)) ->
+    to_line_range (line_starts v t) s e = spec_lines t s e.
+Proof. exact line_range_exact. Qed.
+
+Check C13_line_range_exact :
+  forall (v : variant) (t : string) (s e : nat),
+    (v_crlf v = true \/ no_cr t = true) -> s <= e -> e <= String.length t ->
+    (nth_byte t (e - 1) = Some LF \/ fst (lsp_pos_walk t s) = fst (lsp_pos_walk t e)) ->
+    to_line_range (line_starts v t) s e = spec_lines t s e.
+Print Assumptions C13_line_range_exact.
+
+(* the reader of the current tree builds exactly the specification's document - every block with the lines its source spans, every inline with its LSP span - on EVERY event stream whose byte ranges lie in the text on character boundaries and end behind a line feed or on their first line *)
+Theorem C13_reader_spec_exact :
+  forall (v : variant) (t : string) (evs : list ev),
+    v_tight v = true -> v_utf16 v = true -> (v_crlf v = true \/ no_cr t = true) ->
+    Forall (ev_exact t) evs ->
+    read_events (code_mode v t) evs = read_events (spec_mode t) evs.
+Proof. exact PosFacts.C13_reader_spec_exact. Qed.
+
+Check C13_reader_spec_exact :
+  forall (v : variant) (t : string) (evs : list ev),
+    v_tight v = true -> v_utf16 v = true -> (v_crlf v = true \/ no_cr t = true) ->
+    Forall (ev_exact t) evs ->
+    read_events (code_mode v t) evs = read_events (spec_mode t) evs.
+Print Assumptions C13_reader_spec_exact.
+
+(* as found that premise did not suffice (every event of the tight-item witness gets exact ranges, the implicit paragraph does not) *)
+Theorem C13_reader_spec_as_found_refuted :
+  Forall (modes_agree (code_mode as_found w_tight_text) (spec_mode w_tight_text)) w_tight_events /\
+  read_events (code_mode as_found w_tight_text) w_tight_events <> read_events (spec_mode w_tight_text) w_tight_events.
+Proof. exact PosFacts.C13_reader_spec_as_found_refuted. Qed.
+
+Check C13_reader_spec_as_found_refuted :
+  Forall (modes_agree (code_mode as_found w_tight_text) (spec_mode w_tight_text)) w_tight_events /\
+  read_events (code_mode as_found w_tight_text) w_tight_events <> read_events (spec_mode w_tight_text) w_tight_events.
+Print Assumptions C13_reader_spec_as_found_refuted.
+
+(* repaired (8eeccd5): as found links in table cells were never found (tables had no child inlines) *)
 Theorem C13_table_refuted :
   exists d, read_events (code_mode as_found w_table_text) w_table_events = Ok d /\
-            link_at d (2, 3) = Ok None /\
+            link_at as_found d (2, 3) = Ok None /\
             irange_contains (spec_span w_table_text 14 21) (2, 3) = true.
 Proof. exact PosFacts.C13_table_refuted. Qed.
 
 Check C13_table_refuted :
   exists d, read_events (code_mode as_found w_table_text) w_table_events = Ok d /\
-            link_at d (2, 3) = Ok None /\
+            link_at as_found d (2, 3) = Ok None /\
             irange_contains (spec_span w_table_text 14 21) (2, 3) = true.
 Print Assumptions C13_table_refuted.
+
+(* ... the repaired link_at finds the link in the cell, on exactly its span *)
+Theorem C13_table_repaired :
+  exists d l, read_events (code_mode repaired w_table_text) w_table_events = Ok d /\
+              link_at repaired d (2, 3) = Ok (Some l) /\ inline_range l = spec_span w_table_text 14 21 /\
+              link_at repaired d (2, 1) = Ok None /\ link_at repaired d (2, 9) = Ok None.
+Proof. exact PosFacts.C13_table_repaired. Qed.
+
+Check C13_table_repaired :
+  exists d l, read_events (code_mode repaired w_table_text) w_table_events = Ok d /\
+              link_at repaired d (2, 3) = Ok (Some l) /\ inline_range l = spec_span w_table_text 14 21 /\
+              link_at repaired d (2, 1) = Ok None /\ link_at repaired d (2, 9) = Ok None.
+Print Assumptions C13_table_repaired.
 
 (* the rename range of a one-line link written `[label](url)`, label written as its plain text, is exactly the url *)
 Theorem C13_key_range :
@@ -249,9 +344,9 @@ Print Assumptions C13_node_at_line_none.
 (* the hypotheses of C13_link_at are satisfiable by a non-trivial document, and on it the
    model reader, link_at, key_range and the LSP span of pulldown's byte range agree *)
 Example C13_nonvacuous :
-  exists d l, read_events (code_mode as_found w_plain_text) w_plain_events = Ok d /\
-              link_at d (2, 5) = Ok (Some l) /\ link_at d (2, 14) = Ok (Some l) /\
-              link_at d (2, 4) = Ok None /\ link_at d (2, 15) = Ok None /\
+  exists d l, read_events (code_mode repaired w_plain_text) w_plain_events = Ok d /\
+              link_at repaired d (2, 5) = Ok (Some l) /\ link_at repaired d (2, 14) = Ok (Some l) /\
+              link_at repaired d (2, 4) = Ok None /\ link_at repaired d (2, 15) = Ok None /\
               inline_range l = spec_span w_plain_text 11 21 /\
               key_range l = Ok (Some ((2, 12), (2, 14))).
 Proof. exact C13_plain_example. Qed.
